@@ -134,3 +134,32 @@ def corrupt_pout(ev, rng):
             ev["_corrupted"] = "pouts/%s/rows/0" % po["pm"]
             return True
     return False
+
+
+def shape_stats(trace_path, stats):
+    """shape key -> [answered, refused] over the outcomes of a trace"""
+    for ln in open(trace_path):
+        if '"ev":"Query"' in ln:
+            ev = json.loads(ln)
+            for o in ([ev["out"]] if "out" in ev else [x["out"] for x in ev.get("outs", [])]):
+                st = stats.setdefault(ev["shape"], [0, 0])
+                st[0 if o["res"] == "ok" else 1] += 1
+
+
+def record_shapes(ctx, stats):
+    """VERIF_CYR_RECORD=1: (re)generate supported_shapes.json from this run: the query shapes (query text with labels,
+    types, keys and literals abstracted) that were answered on EVERY case of the run.  Done once on the pinned tree;
+    the file is committed data."""
+    if not os.environ.get("VERIF_CYR_RECORD"):
+        return
+    path = os.path.join(ctx.root, "supported_shapes.json")
+    old = set()
+    if os.path.exists(path) and os.environ.get("VERIF_CYR_RECORD") == "merge":
+        old = set(json.load(open(path))["shapes"])
+    ok = {k for k, v in stats.items() if v[1] == 0 and v[0] > 0}
+    bad = {k for k, v in stats.items() if v[1] > 0}
+    shapes = sorted((old | ok) - bad)
+    with open(path, "w") as f:
+        json.dump({"version": 1, "comment": "query shapes answered (never refused) by the engine on the pinned tree; an error on one "
+                   "of them is a C01 rejection unless the reference semantics itself defines an error", "shapes": shapes}, f, indent=0)
+    ctx.log("recorded %d supported shapes (%d shapes were refused at least once)" % (len(shapes), len(bad)))
